@@ -65,6 +65,8 @@ structure SetInfo where
   texts : List (Option (List Nat)) := []     -- literal text of String tokens
   word : Option Nat := none
   extras : Nat := 0
+  masks : List Nat := []
+  follow : Option (Nat × Nat) := none
   kws : List Nat := []
   ambig : List Nat := []
   deriving Inhabited
@@ -157,14 +159,70 @@ structure Tally where
 def parseModeSet (id spec : String) : SetInfo :=
   match spec.splitOn ";" with
   | h :: rest =>
-    let extras := (((h.drop 2).toString.splitOn "f").headD "0").toNat?.getD 0
+    let hx := (h.drop 2).toString.splitOn "f"
+    let extras := (hx.headD "0").toNat?.getD 0
+    let follow := match ((hx.drop 1).headD "-").splitOn "." with
+      | [a, b] => match a.toNat?, b.toNat? with | some x, some y => some (x, y) | _, _ => none
+      | _ => none
     let toks := rest.map (fun t => match t.splitOn "," with
-      | p :: s :: _mask :: ast =>
+      | p :: s :: mask :: ast =>
         let cs := (",".intercalate ast).toList.toArray
-        ({ re := (parseRe cs 0).1, prec := p.toInt?.getD 0, isString := s == "1" } : Token)
-      | _ => default)
-    { id := id, toks := toks, texts := [], word := none, extras := extras }
+        (({ re := (parseRe cs 0).1, prec := p.toInt?.getD 0, isString := s == "1" } : Token), natOf mask)
+      | _ => (default, 0))
+    { id := id, toks := toks.map (·.1), masks := toks.map (·.2), follow := follow, texts := [], word := none, extras := extras }
   | _ => {}
+
+/-- grammar-level automaton of a two-mode grammar: mode 0 = before any marker, 1 = A, 2 = B;
+`pending` = the previous token was `x` of a `seq(x, y)` item -/
+structure AState where
+  mode : Nat := 0
+  pending : Bool := false
+
+def gValid (si : SetInfo) (st : AState) : List Nat :=
+  let n := si.toks.length
+  let items := if st.mode == 0 then [] else
+    (List.range (n - 2)).filter (fun i => (si.masks.getD i 0) / st.mode % 2 == 1)
+  let y := match si.follow with | some (_, y) => if st.pending then [y] else [] | none => []
+  items ++ y ++ [n - 2, n - 1]
+
+def gStep (si : SetInfo) (st : AState) (t : Nat) : AState :=
+  let n := si.toks.length
+  if t == n - 2 then { mode := 1 } else if t == n - 1 then { mode := 2 } else
+  match si.follow with
+  | some (x, _) => { st with pending := t == x && !st.pending && (si.masks.getD x 0) / st.mode % 2 == 1 }
+  | none => { st with pending := false }
+
+/-- reference run over the grammar automaton with the given lexer model: tokens `(tok, start, end)`,
+or `none` when some position has no valid token (the sentence is rejected) -/
+partial def autoRun (si : SetInfo) (useRef : Bool) (input : List Nat) (pos : Nat) (st : AState)
+    (acc : Array (Nat × Nat × Nat)) : Option (Array (Nat × Nat × Nat)) :=
+  let isExtra := isExtraOf si.extras
+  let rest := input.drop pos
+  let inp := skipExtras isExtra rest
+  if inp.isEmpty then some acc else
+  let off := rest.length - inp.length
+  let vs := gValid si st
+  let v : Nat → Bool := fun i => vs.contains i
+  match (if useRef then refToken si.toks v inp else lexScan si.toks v inp) with
+  | none => none
+  | some (t, n) => if n == 0 then none else
+    autoRun si useRef input (pos + off + n) (gStep si st t) (acc.push (t, pos + off, pos + off + n))
+
+/-- lock-step over the automaton: kind of the first step where scan and documented choice differ -/
+partial def autoDiffKind (si : SetInfo) (input : List Nat) (pos : Nat) (st : AState) : String :=
+  let isExtra := isExtraOf si.extras
+  let rest := input.drop pos
+  let inp := skipExtras isExtra rest
+  if inp.isEmpty then "other" else
+  let off := rest.length - inp.length
+  let vs := gValid si st
+  let v : Nat → Bool := fun i => vs.contains i
+  let a := lexScan si.toks v inp
+  let b := refToken si.toks v inp
+  if a != b then classify si a b else
+  match a with
+  | some (t, n) => if n == 0 then "other" else autoDiffKind si input (pos + off + n) (gStep si st t)
+  | none => "other"
 
 structure MTally where
   strings : Nat := 0
@@ -179,35 +237,46 @@ structure MTally where
   firstOther : String := ""
   deriving Inhabited
 
-/-- judge every lexing step of one real parse: `(tok, pos, end, state)` = in parse state `state` the
-lexer started at `pos` and returned `tok` ending at `end` (`tok` = 100000 for the end-of-input
-token, 100001 for an error / unknown symbol).  Expected: what the lexer model chooses at `pos` among
-the tokens valid in `state`; when the model finds no token the real lexer must not return a token
-that is valid in `state`. -/
-def evalEvents (si : SetInfo) (valid : Array (List Nat)) (cps : String) (input : List Nat)
+/-- judge one real parse of a two-mode grammar.  `events` = every lexing step of the real parser
+`(tok, pos, end, state)` (tok 100000 = end of input, 100001 = error/unknown).
+* acceptance: the tree is error-free iff the reference run over the grammar automaton accepts;
+* error-free parses: the real token sequence equals the reference run, and at every step the token is
+  what the model chooses among the tokens the PARSE TABLE lists for the real parse state
+  (`valid`, from the look-ahead iterator), which must contain the grammar-level valid set. -/
+def evalEvents (si : SetInfo) (valid : Array (List Nat)) (cps : String) (input : List Nat) (isErr : Bool)
     (events : List (Nat × Nat × Nat × Nat)) (a : MTally) : MTally := Id.run do
   let isExtra := isExtraOf si.extras
   let mut a := a
-  for (tok, pos, en, state) in events do
-    let rest := input.drop pos
-    let inp := skipExtras isExtra rest
-    let off := rest.length - inp.length
-    let vs := valid.getD state []
-    let v : Nat → Bool := fun i => vs.contains i
-    let scan := lexScan si.toks v inp
-    let ref := refToken si.toks v inp
-    let real : Option Cand := if tok < 100000 && pos + off ≤ en then some (tok, en - pos - off) else none
-    let agrees (m : Option Cand) : Bool :=
-      match m with
-      | some c => real == some c
-      | none => if tok == 100000 then inp.isEmpty else !(tok < 100000 && vs.contains tok)
-    a := { a with leaves := a.leaves + 1 }
-    if ((candidates si.toks (fun _ => true) inp).any (fun c => !vs.contains c.1)) then a := { a with ctx := a.ctx + 1 }
-    if !agrees scan then a := { a with corrBad := a.corrBad + 1, firstCorr := if a.firstCorr == "" then cps else a.firstCorr }
-    if !agrees ref then
-      if classify si real ref == "overtake" then
-        a := { a with overtake := a.overtake + 1, firstOvertake := if a.firstOvertake == "" then cps else a.firstOvertake }
-      else a := { a with other := a.other + 1, firstOther := if a.firstOther == "" then cps else a.firstOther }
+  let runScan := autoRun si false input 0 {} #[]
+  let runRef := autoRun si true input 0 {} #[]
+  let realToks : Array (Nat × Nat) := (events.filter (fun e => e.1 < 100000)).toArray.map (fun e => (e.1, e.2.2.1))
+  let same (r : Option (Array (Nat × Nat × Nat))) : Bool :=
+    match r with
+    | some ts => !isErr && ts.map (fun t => (t.1, t.2.2)) == realToks
+    | none => isErr
+  let mut bad := !same runScan
+  let mut st : AState := {}
+  if !isErr then
+    for (tok, pos, en, state) in events do
+      let rest := input.drop pos
+      let inp := skipExtras isExtra rest
+      let off := rest.length - inp.length
+      let vs := valid.getD state []
+      let v : Nat → Bool := fun i => vs.contains i
+      let scan := lexScan si.toks v inp
+      let real : Option Cand := if tok < 100000 && pos + off ≤ en then some (tok, en - pos - off) else none
+      a := { a with leaves := a.leaves + 1 }
+      if ((candidates si.toks (fun _ => true) inp).any (fun c => !vs.contains c.1)) then a := { a with ctx := a.ctx + 1 }
+      -- per-state valid set from the table ⊇ grammar-level valid set of the automaton state
+      if !(gValid si st).all (fun i => vs.contains i) then bad := true
+      if tok == 100000 then (if !inp.isEmpty then bad := true)
+      else if scan != real then bad := true
+      if tok < 100000 then st := gStep si st tok
+  if bad then a := { a with corrBad := a.corrBad + 1, firstCorr := if a.firstCorr == "" then cps else a.firstCorr }
+  if !same runRef then
+    if autoDiffKind si input 0 {} == "overtake" then
+      a := { a with overtake := a.overtake + 1, firstOvertake := if a.firstOvertake == "" then cps else a.firstOvertake }
+    else a := { a with other := a.other + 1, firstOther := if a.firstOther == "" then cps else a.firstOther }
   return a
 
 structure St where
@@ -253,7 +322,7 @@ def step (s : St) (line : String) : IO St := do
       | [t, b, c, d] => ((if t == "end" then 100000 else if t == "other" then 100001 else natOf t), natOf b, natOf c, natOf d)
       | _ => (100001, 0, 0, 0))
     let mt := { s.mt with strings := s.mt.strings + 1, errors := s.mt.errors + (if isErr then 1 else 0) }
-    return { s with mt := evalEvents s.msi s.mvalid cps input events mt }
+    return { s with mt := evalEvents s.msi s.mvalid cps input isErr events mt }
   | ["endmset", id] =>
     let a := s.mt
     let corr := if a.corrBad == 0 then "ok" else s!"DIFF {a.firstCorr}"
